@@ -331,6 +331,8 @@ def run(ctx: Check):
     valid = _corpus() + valid
     lockstep(ctx, "po-allocator", "C26", valid, impl, monitor, more_cases, nontrivial, procs=procs)
     lockstep(ctx, "po-allocator-malformed", "C26", malformed, impl, None, None, nontrivial, procs=procs)
+    lockstep(ctx, "po-allocator-two-callers", "C26", gen_cases2(ctx), impl2, monitor2, more_cases2,
+             lambda c, o: any("-" not in _kv(l)[k] for l in c.ops for k in ("a2", "f2", "x2")), procs=1)
     ctx.count("configurations", len({c.desc["n"] for c in valid}))
     if ctx.thorough:
         cases = exhaustive_cases(ctx)
@@ -340,7 +342,117 @@ def run(ctx: Check):
              "declared; the winner is read off the elaborated design (cfg ff=) and the monitor demands exactly one")
 
 
+# ------------------------------------------------------------------ two callers per method
+_sims2: dict[int, tuple] = {}
+
+
+def _sim2(n: int):
+    """real allocator with alloc, free and free_idx each called by two independent transactions; plus the static
+    priority among the two callers of each method, read off the real scheduler"""
+    if n not in _sims2:
+        from transactron.lib.allocators import PreservedOrderAllocator
+
+        from ..alloc2 import make_two
+
+        def mk():
+            d = PreservedOrderAllocator(n)
+            return make_two(d, {"alloc": d.alloc, "free": d.free, "free_idx": d.free_idx}, {"order": d.order, "clear": d.clear})
+
+        sim = CompSim(mk)
+        tr = sim.run([{"alloc[0]": 0, "alloc[1]": 0}, {"free[0]": 0, "free[1]": 0}, {"alloc[0]": 0}, {"free_idx[0]": 0, "free_idx[1]": 0}])
+        first = lambda r, name: 1 if (r[(name, 0)] is None and r[(name, 1)] is not None) else 0  # noqa: E731
+        pr = {"alloc": first(tr[0], "alloc"), "free": first(tr[1], "free"), "free_idx": first(tr[3], "free_idx")}
+        _sims2[n] = (sim, {k: [v, 1 - v] for k, v in pr.items()})
+    return _sims2[n]
+
+
+def impl2(case: Case) -> list[str]:
+    """two-caller run projected onto the single-caller observation format; `dbl=<methods>` is appended when both
+    callers of an exclusive method executed in one cycle"""
+    from ..alloc2 import executed, pair
+
+    n = case.desc["n"]
+    sim = _sim2(n)[0]
+    w, uw = (n - 1).bit_length(), n.bit_length()
+    ops = []
+    for line in case.ops:
+        o = _kv(line)
+        a2, f2, x2 = pair(o["a2"]), pair(o["f2"]), pair(o["x2"])
+        op = {"order": 0 if o["o"] == "1" else None, "clear": 0 if o["c"] == "1" else None}
+        for k in (0, 1):
+            op[("alloc", k)] = 0 if a2[k] else None
+            op[("free", k)] = f2[k]
+            op[("free_idx", k)] = x2[k]
+        ops.append(op)
+    tr = sim.run(ops, extra=lambda wr: [wr.inner.alloc.ready])
+    out = ["ok"]
+    for r in tr:
+        od = r[("order",)]
+        if od is None:
+            so = "-"
+        else:
+            used = od & ((1 << uw) - 1)
+            so = f"{used}:{','.join(str((od >> (uw + k * w)) & ((1 << w) - 1)) for k in range(n))}"
+        (a, da), (f, df), (x, dx) = executed(r, "alloc"), executed(r, "free"), executed(r, "free_idx")
+        dbl = ",".join(nm for nm, y in (("alloc", da), ("free", df), ("free_idx", dx)) if y)
+        out.append(
+            f"a={'-' if a is None else a} f={0 if f is None else 1} x={0 if x is None else 1} o={so} "
+            f"c={0 if r[('clear',)] is None else 1} rdy={r['_extra'][0]}" + (f" dbl={dbl}" if dbl else "")
+        )
+    return out
+
+
+def monitor2(case: Case, out: list[str]):
+    """at most one caller of an exclusive method executes per cycle; the property holds on the executed calls"""
+    for k, o in enumerate(out[1:]):
+        if " dbl=" in o:
+            return (f"cycle {k}: both callers of the exclusive method(s) {o.split('dbl=')[1]} executed in one cycle "
+                    f"(attempts {case.ops[k]}; alloc would hand the same identifier to two callers)")
+    return monitor(case, out)
+
+
+def _stream2(rng, n, length) -> Case:
+    """two callers per method attempting independently (free and free_idx kinds not mixed in one cycle here;
+    that conflict has its own stream); all arguments legal for the allocator's state"""
+    from ..alloc2 import first_of, fmt_pair
+
+    _, pr = _sim2(n)
+    ref = _Ref(n)
+    lines = []
+    fmt = lambda v: "-" if v is None else str(v)  # noqa: E731
+    for _ in range(length):
+        a2 = [1 if rng.random() < 0.6 else None for _ in range(2)]
+        f2, x2 = [None, None], [None, None]
+        if ref.used and rng.random() < 0.6:
+            if rng.random() < 0.5:
+                f2 = [ref.order[rng.randrange(ref.used)] if rng.random() < 0.75 else None for _ in range(2)]
+            else:
+                x2 = [rng.randrange(ref.used) if rng.random() < 0.75 else None for _ in range(2)]
+        c = rng.random() < 0.02
+        a = first_of(pr["alloc"], a2)
+        f, x = first_of(pr["free"], f2), first_of(pr["free_idx"], x2)
+        lines.append(f"cyc a={1 if a else 0} f={fmt(f)} x={fmt(x)} o=1 c={int(c)} a2={fmt_pair(a2)} f2={fmt_pair(f2)} x2={fmt_pair(x2)}")
+        ref.step(bool(a), f, x, c)
+    return Case(f"cfg n={n} ff={_free_first(n)}", lines, {"component": "PreservedOrderAllocator", "n": n, "callers": 2}, "random")
+
+
+def gen_cases2(ctx: Check) -> list[Case]:
+    rng = ctx.rng("two-callers")
+    out = []
+    for n in ctx.pick([1, 2, 3, 5, 8], [1, 2, 3, 4, 5, 6, 7, 8, 9, 16]):
+        for _ in range(ctx.pick(3, 6)):
+            out.append(_stream2(rng, n, ctx.pick(100, 400)))
+    return out
+
+
+def more_cases2(case: Case, rng):
+    for _ in range(20):
+        yield _stream2(rng, case.desc["n"], 100)
+
+
 def replay(ctx: Check, body: dict):
     from ..lockstep import replay_case
 
+    if body.get("desc", {}).get("callers") == 2:
+        return replay_case(body, impl2, monitor2)
     return replay_case(body, impl, monitor)
